@@ -81,7 +81,8 @@ Definition logent_eqb (a b : logent) : bool :=
 Definition berr_eqb (a b : berr) : bool :=
   match a, b with
   | BUser v, BUser w => errval_eqb v w
-  | BCtx j, BCtx k | BTxDone j, BTxDone k | BNest j, BNest k => j =? k
+  | BCtx j a, BCtx k b => (j =? k) && Bool.eqb a b
+  | BTxDone j, BTxDone k | BNest j, BNest k => j =? k
   | BStmt j v, BStmt k w | BSelfC j v, BSelfC k w | BSelfR j v, BSelfR k w => (j =? k) && errval_eqb v w
   | _, _ => false
   end.
@@ -138,7 +139,7 @@ Definition berr_facts (b : berr) : eobs :=
   match b with
   | BUser v     => mkE false false false false true false false false false (sent_of v)
   | BStmt _ v   => mkE false false false false true false false false false (sent_of v)
-  | BCtx _      => mkE false false false false true false false false false [VCanceled]
+  | BCtx _ dl   => mkE false false false false true false false false false [if dl then VDeadline else VCanceled]
   | BTxDone _   => mkE false false false false true false false false false [VTxDone]
   | BNest _     => mkE false false false false true false false false true  []
   | BSelfC _ v  => mkE false false (role_visible v) false true false false false false (sent_of v)
@@ -149,7 +150,7 @@ Definition facts (e : err) : eobs :=
   match e with
   | ENil            => mkE true  false false false false false false false false []
   | EUnavailable    => mkE false false false false false false false false false [VUnavail]
-  | ECanceled       => mkE false false false false false false false false false [VCanceled]
+  | ECtxDone dl     => mkE false false false false false false false false false [if dl then VDeadline else VCanceled]
   | ENoConn         => mkE false false false false false false false true  false []
   | EBegin v        => mkE false (role_visible v) false false false false false false false (sent_of v)
   | EBody b         => berr_facts b
@@ -171,7 +172,7 @@ Definition builtin_acceptable (k : ekind) : bool :=
   end.
 Definition consults (e : err) : bool :=
   match e with
-  | ENil | EUnavailable | ECanceled => false
+  | ENil | EUnavailable | ECtxDone _ => false
   | _ => negb (existsb builtin_acceptable (e_sent (facts e)))
   end.
 
